@@ -1,5 +1,5 @@
 # replay of a bounded stand-in violation (C17/C02): re-run native/c17_decomp.py
 import sys
-print('graph_embed on random make_traceless (n=2, mean photon 1.3): U tanh(r) U^T proportional to the embedded matrix: True; mean photon per mode 0.17769')
+print('bipartite_graph_embed on complex Hermitian (n=2) rejected a valid input: ValueError: The input matrix is not symmetric')
 print('REPLAY-VIOLATION')
 sys.exit(1)
